@@ -20,7 +20,8 @@ pub fn valid_polygon_case(cx: &mut Ctx, _n: u64, case: &Value, p: &Polygon<f64>)
 fn ring_no(s: &str) -> Vec<i64> {
     // ring roles named inside an error's Debug text: Exterior -> 0, Interior(k) -> k + 1
     let mut out = vec![];
-    let mut rest = s;
+    // only the arguments: variant names such as InteriorRingNotContainedInExteriorRing contain the words themselves
+    let mut rest = s.find('(').map(|i| &s[i..]).unwrap_or("");
     loop {
         let e = rest.find("Exterior");
         let i = rest.find("Interior(");
